@@ -341,6 +341,9 @@ func vfLifeHistory(t *testing.T, rng *rand.Rand, nops int, cfg vfLifeCfg) (lit s
 		blacklisted := false
 		for i := 0; i < nops; i++ {
 			r := rng.Intn(100)
+			if cfg.blacklistOps && rng.Intn(12) == 0 {
+				r = 57 // a blacklisting (by either route) at this point of the lifecycle
+			}
 			switch {
 			case r < 12:
 				if connected() {
